@@ -96,7 +96,14 @@ SeqFamily(name, K) ==
     [] name = "recompact" -> {<<r1, r2, r3, [op |-> "recompact", live |-> lv], Reopen, r4, Reopen>> :
                             r1 \in PickS(2, RecOps), r2 \in PickS(K, RecOps), r3 \in PickS(K, RecOps), r4 \in PickS(2, RecOps),
                             lv \in {<<"a", "bb">>, <<"a">>, <<"bb">>, <<>>}}
+    \* a path with a record of its own that is also a dependency of an output recorded before it and of one recorded
+    \* after it; recompaction with that path's statement gone (or kept), then a reload and more records
+    [] name = "recompact2" -> {<<[op |-> "rec", o |-> "bb", m |-> 1, d |-> d1], [op |-> "rec", o |-> "a", m |-> m2, d |-> d2],
+                                 [op |-> "rec", o |-> "eeeee", m |-> 1, d |-> d3], [op |-> "recompact", live |-> lv], Reopen, r4, Reopen>> :
+                            d1 \in {<<"a">>, <<"dddd", "a">>}, m2 \in MtM, d2 \in {<<>>, <<"ccc">>}, d3 \in {<<"a">>, <<"ccc", "a">>},
+                            lv \in {<<"bb", "eeeee">>, <<"eeeee">>, <<"bb">>, <<"a", "bb", "eeeee">>},
+                            r4 \in PickS(K, RecOps \cup {[op |-> "rec", o |-> "eeeee", m |-> 2, d |-> <<"a", "bb">>]})}
 ExpName == IF "SEQ" \in DOMAIN IOEnv THEN IOEnv.SEQ ELSE ""
 ExpK == IF "K" \in DOMAIN IOEnv THEN atoi(IOEnv.K) ELSE 3
-ASSUME ExpName = "" \/ ndJsonSerialize(IOEnv.OUT, SetToSeq({[live |-> <<"a", "bb">>, ops |-> q] : q \in SeqFamily(ExpName, ExpK)}))
+ASSUME ExpName = "" \/ ndJsonSerialize(IOEnv.OUT, SetToSeq({[live |-> <<"a", "bb", "eeeee">>, ops |-> q] : q \in SeqFamily(ExpName, ExpK)}))
 =============================================================================
